@@ -15,6 +15,9 @@ LEVEL_TEXT = (
     "the expression as written (compile_view, C02_source_to_output); payments p1..pn next to the change "
     "source - p1 - .. - pn - fees add up, class by class, to the total of the UTxOs assigned to source less the fee "
     "(C02_balance; with a minted and a burnt amount in the change, C02_balance_mint); "
+    "a position that holds one number accepts a number or a value with exactly one entry and refuses a value of "
+    "no class or of several (C02_scalar_shape, C02_no_class_refused, C02_two_classes_refused; on the real compile(): "
+    "clause exact:<position>:not-a-number-accepted over every one-number position x every shape of value); "
     "out-of-range values make the model return an error. The two remaining silent alterations (negative lovelace "
     "wraps, negative native asset dropped - both pinned by hashes in the repository's own tests) are proved as "
     "witnesses and reported as known findings. The reducer's checked arithmetic is covered by the L3 correspondence."
@@ -26,14 +29,15 @@ LEVEL_NOTE = (
     "expressions, fees, input names, +, -) and checked per case beyond it (AnyAsset, property access, mint and burn)."
 )
 PROP = "C02"
-TARGETS = ["Tx3Proofs.C02", "Tx3Proofs.C02Outputs", "Tx3Proofs.C02Balance", "Tx3Proofs.C01Optional"]
+TARGETS = ["Tx3Proofs.C02", "Tx3Proofs.C02Outputs", "Tx3Proofs.C02Balance", "Tx3Proofs.C01Optional", "Tx3Proofs.C01Blocks"]
 THEOREMS = ["Tx3.C02_fee_exact", "Tx3.C02_validity_exact", "Tx3.C02_mint_range", "Tx3.C02_withdrawal_exact",
             "Tx3.C02_donation_exact", "Tx3.C02_negative_lovelace_wraps", "Tx3.C02_negative_asset_dropped",
             "Tx3.compileValue_exact", "Tx3.compileValues_exact", "Tx3.assetQty_insertAsset",
             "Tx3.C02_output_exact_partial", "Tx3.C02_output_block_exact",
             "Tx3.view_triples", "Tx3.range_triples", "Tx3.compile_view", "Tx3.den_odd", "Tx3.C02_source_to_output",
             "Tx3.den_minusAll", "Tx3.C02_balance", "Tx3.C02_balance_mint",
-    "Tx3.C02_zero_mint_refused", "Tx3.C01_optional_output_kept_iff"]
+    "Tx3.C02_zero_mint_refused", "Tx3.C01_optional_output_kept_iff",
+    "Tx3.C02_scalar_shape", "Tx3.C02_no_class_refused", "Tx3.C02_two_classes_refused"]
 ASSUMPTIONS = [cc.MODEL_NOTE,
                "pallas' CBOR encoder is not modelled: its output is read back by the independent Lean reader",
                "spec oracle: expected quantities are computed from the constant template by plain integer arithmetic in the driver"]
